@@ -86,6 +86,24 @@ Example C09_ex_error : compute ex_bad_status true = Err.
 Proof. vm_compute. reflexivity. Qed.
 Print Assumptions C09_dispatch_from_source.
 
+(* the model is additionally tied to the source by TRANSLATION: the Gallina
+   Compute that harness/cmd/genkstatus generates on this run from the Go
+   sources (Generated/KStatusSrc.v; syntax-directed, and the translator rejects
+   every construct that can panic: unchecked type assertions, slice indexing,
+   nil dereference) is a total function that yields, on every tree and for both
+   clock values, exactly the model's outcome - in particular never the pair
+   (nil, nil); the container scan of Pods (the former panic site) agrees with
+   the model's.  `to_outcome` maps a ( *Result, error ) pair to the model's
+   outcome.  So C09_wellformed / C09_total hold of the generated Compute. *)
+From CliUtils Require Model.KStatusSrcLib Generated.KStatusSrc Proofs.KStatusSrcAgree.
+
+Theorem C09_source_translation_agrees : forall (j : jv) (w : bool),
+  KStatusSrcLib.to_outcome (KStatusSrc.Compute j w) = Some (compute j w) /\
+  (let '(_, b, e) := KStatusSrc.getCrashLoopingContainers j in if e then None else Some b) = get_crash_looping j /\
+  KStatusSrcLib.to_outcome (KStatusSrc.podConditions j w) = Some (pod_conditions j w).
+Proof. exact KStatusSrcAgree.src_total_agrees. Qed.
+Print Assumptions C09_source_translation_agrees.
+
 (* ==== At the status readers ===================================================
    statusreaders.NewDefaultStatusReader (Model/KStatusReader.v) wraps Compute.
    A reader call returns a ResourceStatus (`Some r`) or (nil, err) (`None`);
